@@ -201,7 +201,7 @@ def gmm_init_def(ctx):
 GROUPS = [guard(gmm_mstep_valid), guard(gmm_weights), guard(kmeans_def), guard(gmm_init_def)]
 SHARED = [("C03", "mstep_ml", ["C03.m.weights", "C03.m.means", "C03.m.variances"]),      # the ML M-step meets the contract the validity lemmas are stated over
           ("C10", "mstep", ["C10.def", "C10.floor"]), ("C01", "definedness", ["C01.def"]), ("C17", "set_variances", ["C17.set.variances"]), ("C17", "set_thresholds", ["C17.set.thresholds"]),
-          ("C05", "sum_to_one", ["C05.alpha"]), ("C05", "mstep_map", ["C05.weights"]), ("C10", "mstep", ["C10.mstep.sigma"])]
+          ("C05", "sum_to_one", ["C05.alpha"]), ("C05", "mstep_map", ["C05.weights", "C05.means", "C05.def"]), ("C10", "mstep", ["C10.mstep.sigma"])]
 REPLAY = [("C10", "iv_repro.py", "all", {}), ("C05", "gmm_repro.py", "map_mstep", {}), ("C13.kmeans", "kmeans_repro.py", "empty_cluster", {}), ("C13.gmm.init", "kmeans_repro.py", "empty_cluster", {}),
           ("C13.gmm.ml", "gmm_repro.py", "starved", {"trainer": "ml"}), ("C13.gmm.map", "gmm_repro.py", "starved", {"trainer": "map"}),
           ("C13.gmm.weights", "gmm_repro.py", "starved", {"trainer": "ml"})]
